@@ -43,6 +43,13 @@ def _run(ctx, spec):
     corr_file = corr.replace(".", "/") + ".v"
     violations = []           # (kind, replay_path, suffix)
     vlib.stage_repo(ctx)
+    if "stage_hook" in spec:
+        # source-level seam applied to the STAGED copy only (never to /repo); it must raise when
+        # its patterns are not found exactly (= broken tie)
+        try:
+            spec["stage_hook"](ctx.repo)
+        except Exception as e:  # noqa
+            ctx.broken.append(("stage-hook", spec["id"], str(e)[-1500:]))
 
     # ---- 1. Coq side: regenerate extracted facts, rebuild the cone, read Print Assumptions
     targets = [pfile[:-2] + ".vo", corr_file[:-2] + ".vo"] + [t[:-2] + ".vo" for t in spec.get("extra_targets", [])]
